@@ -37,12 +37,13 @@ func TestVerifC08Smoke(t *testing.T) {
 		t.Fatal(err)
 	}
 	w.reset(sc.Cfg)
+	vkVerbose = true
 	fmt.Println("cfg:", sc.Cfg)
 	for i, ev := range sc.Hist {
 		n0 := len(w.exchanges())
 		st := w.apply(ev)
 		d, nt := w.digest()
-		fmt.Printf("#%d %-22s -> %-28s up=%d el=%s\n    upstream: %s\n    state(nontrivial=%v): %s\n", i, ev, st.Outcome, st.Upstream, st.Elapsed, vkExStr(w.exchanges()[n0:]), nt, d)
+		fmt.Printf("#%d %-22s -> %-28s up=%d el=%s\n    reply: "+st.Reply+"\n    upstream: %s\n    state(nontrivial=%v): %s\n", i, ev, st.Outcome, st.Upstream, st.Elapsed, vkExStr(w.exchanges()[n0:]), nt, d)
 		if st.Viol != "" {
 			fmt.Println("    VIOLATION["+st.Class+"]:", st.Viol)
 			break
